@@ -17,7 +17,40 @@ where
     T::deserialize(Deserializer::new(value.into())?)
 }
 
-macro_rules! deserialize_number {
+// Converts a number into an integer, returning `None` if the target type can't represent it
+//
+// Floats get truncated towards zero, as long as the result is within the target's range.
+// Note that `From<KNumber>` can't be used here, it saturates when the number is out of range.
+fn checked_integer<T>(n: KNumber) -> Option<T>
+where
+    T: TryFrom<i64>,
+{
+    let i = match n {
+        KNumber::I64(i) => i,
+        KNumber::F64(f) if f >= i64::MIN as f64 && f < i64::MAX as f64 => f as i64,
+        KNumber::F64(_) => return None,
+    };
+    T::try_from(i).ok()
+}
+
+macro_rules! deserialize_integer {
+    ($trait_method:ident, $type:ty, $visitor_method:ident) => {
+        fn $trait_method<V>(self, visitor: V) -> Result<V::Value>
+        where
+            V: Visitor<'de>,
+        {
+            match self.0 {
+                KValue::Number(n) => match checked_integer::<$type>(n) {
+                    Some(i) => visitor.$visitor_method(i),
+                    None => Err(Error::OutOfRangeNumber(n, stringify!($type))),
+                },
+                other => unsupported_error("number", &other),
+            }
+        }
+    };
+}
+
+macro_rules! deserialize_float {
     ($trait_method:ident, $type:ty, $visitor_method:ident) => {
         fn $trait_method<V>(self, visitor: V) -> Result<V::Value>
         where
@@ -38,9 +71,9 @@ macro_rules! try_deserialize_number {
             V: Visitor<'de>,
         {
             match self.0 {
-                KValue::Number(n) => match i64::try_from(n) {
-                    Ok(i) => visitor.visit_i64(i),
-                    Err(_) => Err(Error::OutOfI64RangeNumber(n)),
+                KValue::Number(n) => match checked_integer::<i64>(n) {
+                    Some(i) => visitor.visit_i64(i),
+                    None => Err(Error::OutOfI64RangeNumber(n)),
                 },
                 other => unsupported_error("number", &other),
             }
@@ -96,18 +129,18 @@ impl<'de> de::Deserializer<'de> for Deserializer {
         }
     }
 
-    deserialize_number!(deserialize_i8, i8, visit_i8);
-    deserialize_number!(deserialize_i16, i16, visit_i16);
-    deserialize_number!(deserialize_i32, i32, visit_i32);
-    deserialize_number!(deserialize_i64, i64, visit_i64);
+    deserialize_integer!(deserialize_i8, i8, visit_i8);
+    deserialize_integer!(deserialize_i16, i16, visit_i16);
+    deserialize_integer!(deserialize_i32, i32, visit_i32);
+    deserialize_integer!(deserialize_i64, i64, visit_i64);
     try_deserialize_number!(deserialize_i128);
-    deserialize_number!(deserialize_u8, u8, visit_u8);
-    deserialize_number!(deserialize_u16, u16, visit_u16);
-    deserialize_number!(deserialize_u32, u32, visit_u32);
+    deserialize_integer!(deserialize_u8, u8, visit_u8);
+    deserialize_integer!(deserialize_u16, u16, visit_u16);
+    deserialize_integer!(deserialize_u32, u32, visit_u32);
     try_deserialize_number!(deserialize_u64);
     try_deserialize_number!(deserialize_u128);
-    deserialize_number!(deserialize_f32, f32, visit_f32);
-    deserialize_number!(deserialize_f64, f64, visit_f64);
+    deserialize_float!(deserialize_f32, f32, visit_f32);
+    deserialize_float!(deserialize_f64, f64, visit_f64);
 
     fn deserialize_char<V>(self, visitor: V) -> Result<V::Value>
     where
@@ -330,10 +363,9 @@ fn values_to_bytes(values: &[KValue]) -> Result<Vec<u8>> {
     values
         .iter()
         .map(|value| match value {
-            #[allow(clippy::unnecessary_fallible_conversions)]
-            KValue::Number(n) => match u8::try_from(n) {
-                Ok(x) => Ok(x),
-                Err(_) => Err(Error::OutOfU8RangeNumber(*n)),
+            KValue::Number(n) => match checked_integer::<u8>(*n) {
+                Some(x) => Ok(x),
+                None => Err(Error::OutOfU8RangeNumber(*n)),
             },
             other => unsupported_error("number", other),
         })
